@@ -280,6 +280,8 @@ def parse_call(s):
         if n == 'pp':
             return ('publish_proof', (Proved(p),), f'pp:{show(p)}')
         return ('publish_axiom' if n == 'pa' else 'publish_claim', (p,), f'{n}:{show(p)}')
+    if n == 'pt':
+        return ('__pattern__', (pat_of(f[1]),), s)
     if n == 'ic':
         return ('into_claim_phase', (), s)
     if n == 'if':
@@ -310,40 +312,147 @@ def kind_of(e):
     return type(e).__name__
 
 
+METHOD_TAG = {'evar': 'ev', 'svar': 'sv', 'symbol': 'sy', 'metavar': 'mv', 'implies': 'im', 'app': 'ap', 'exists': 'ex',
+              'mu': 'mu', 'esubst': 'es', 'ssubst': 'ss', 'prop1': 'p1', 'prop2': 'p2', 'prop3': 'p3',
+              'exists_quantifier': 'qu', 'modus_ponens': 'mp', 'exists_generalization': 'ge', 'instantiate': 'in',
+              'instantiate_pattern': 'ip', 'pop': 'po', 'save': 'sa', 'load': 'lo', 'publish_proof': 'pp',
+              'publish_axiom': 'pa', 'publish_claim': 'pc'}
+
+
+def render_call(m, args):
+    """an Interpreter method call made by the real code -> request text with EXPANDED patterns"""
+    t = METHOD_TAG[m]
+    if m in ('evar', 'svar'):
+        return f'{t}:{int(args[0])}'
+    if m == 'symbol':
+        return f'{t}:{int(args[0])}'
+    if m == 'metavar':
+        a = list(args) + [()] * (6 - len(args))
+        return t + ':' + str(a[0]) + ':' + ':'.join((','.join(str(v.name) for v in l) or '-') for l in a[1:6])
+    if m in ('implies', 'app'):
+        return f'{t}:{show(args[0])}:{show(args[1])}'
+    if m in ('exists', 'mu'):
+        return f'{t}:{args[0]}:{show(args[1])}'
+    if m in ('esubst', 'ssubst'):
+        return f'{t}:{args[0]}:{show(args[1])}:{show(args[2])}'
+    if m in ('prop1', 'prop2', 'prop3', 'exists_quantifier'):
+        return t
+    if m == 'modus_ponens':
+        return f'{t}:{show(args[0].conclusion)}:{show(args[1].conclusion)}'
+    if m == 'exists_generalization':
+        return f'{t}:{show(args[0].conclusion)}:{args[1].name}'
+    if m in ('instantiate', 'instantiate_pattern'):
+        p = args[0].conclusion if m == 'instantiate' else args[0]
+        return ':'.join([t, show(p)] + [x for k, v in args[1].items() for x in (str(k), show(v))])
+    if m == 'pop':
+        return f'{t}:{show_term(args[0])}'
+    if m in ('save', 'load'):
+        return f'{t}:{show_term(args[1])}'
+    if m == 'publish_proof':
+        return f'{t}:{show(args[0].conclusion)}'
+    return f'{t}:{show(args[0])}'
+
+
 def ser(ph, claims_s, call_strs, trace):
+    """run the calls on a real SerializingInterpreter.  `pt:<pattern>` = interpreter.pattern(p): the Interpreter
+    methods that the real traversal calls are recorded one by one (text, state after each), so that the model
+    is fed exactly the calls the real code made, in its order, with its arguments.
+    The symbol table is OBSERVED (the id byte written by each symbol() call), not read from a private attribute."""
     claims = claims_of(claims_s)
     calls = [parse_call(c) for c in call_strs]
     it, sinks = new_serializer(ph, claims)
     fail = None
     kind = ''
-    recs = []
-    for k, (m, args, _) in enumerate(calls):
-        before = sum(len(s.data) for s in sinks)
-        snap = (list(it.stack), list(it.memory), list(it.claims), it.phase, dict(it._symbol_identifiers), it.out)
+    recs = []          # one record per executed Interpreter call
+    xcalls = []        # their texts (expanded); a failing call is the last entry
+    observed = {}      # symbol name -> ids written for it, in order
+    state = {'snap': None, 'before': 0}
+
+    def total():
+        return sum(len(s.data) for s in sinks)
+
+    def snapshot():
+        state['snap'] = (list(it.stack), list(it.memory), list(it.claims), it.phase,
+                         dict(getattr(it, '_symbol_identifiers', {})), it.out)
+        state['before'] = total()
+
+    def done(m, args):
+        if m == 'symbol' and it.out.data[-2:-1] == bytes([4]):
+            observed.setdefault(args[0], []).append(it.out.data[-1])
+        if trace:
+            recs.append(f' | {show_tracker(it)} n={total() - state["before"]}')
+        else:
+            recs.append('')
+
+    def wrap(m):
+        orig = getattr(it, m)
+
+        def f(*args):
+            xcalls.append(render_call(m, args))
+            snapshot()
+            r = orig(*args)
+            done(m, args)
+            return r
+        return f
+
+    for k, (m, args, text) in enumerate(calls):
         try:
-            getattr(it, m)(*args)
+            if m == '__pattern__':
+                for name in METHOD_TAG:
+                    setattr(it, name, wrap(name))
+                n_before = len(recs)
+                try:
+                    it.pattern(*args)
+                finally:
+                    for name in METHOD_TAG:
+                        try:
+                            delattr(it, name)
+                        except AttributeError:
+                            pass
+                if len(xcalls) != len(recs):
+                    raise Bad('pattern(): bookkeeping')
+            else:
+                xcalls.append(text)
+                snapshot()
+                getattr(it, m)(*args)
+                done(m, args)
         except Exception as e:  # noqa: BLE001  every exception is a reject
-            fail = k
             kind = kind_of(e)
+            if len(xcalls) == len(recs):
+                # raised by Interpreter.pattern itself, between two calls: no model call corresponds to it
+                xcalls.append('??')
+                snapshot()
+            fail = len(recs)
             # the run is dead; report the state BEFORE the failing call (as the model does)
-            it.stack, it.memory, it.claims, it.phase, it._symbol_identifiers, it.out = snap
-            # bytes written before the exception belong to a dead run: drop them
-            extra = sum(len(s.data) for s in sinks) - before
+            sn = state['snap']
+            it.stack, it.memory, it.claims, it.phase, it.out = sn[0], sn[1], sn[2], sn[3], sn[5]
+            if hasattr(it, '_symbol_identifiers'):
+                it._symbol_identifiers = sn[4]
+            extra = total() - state['before']
             if extra:
                 del it.out.data[len(it.out.data) - extra:]
+            # calls that were never reached still belong to the request (the model stops at the same place)
+            for m2, a2, t2 in calls[k + 1:]:
+                if m2 != '__pattern__':
+                    xcalls.append(t2)
             break
-        if trace:
-            n = sum(len(s.data) for s in sinks) - before
-            recs.append(f' | {show_tracker(it)} n={n}')
     head = 'OK' if fail is None else f'REJECT {fail}'
-    tbl = ','.join(name for name, _ in sorted(it._symbol_identifiers.items(), key=lambda kv: kv[1])) or '-'
-    # the table must be a bijection onto 0..n-1 in first-occurrence order
-    ids = sorted(it._symbol_identifiers.values())
-    if ids != list(range(len(ids))):
-        tbl = 'BROKEN:' + repr(it._symbol_identifiers)
-    x = ' '.join(c[2] for c in calls)
+    # the table as observed: every name one id, every id one name, ids 0..n-1 in first-occurrence order
+    first = {}
+    broken = None
+    for name, ids in observed.items():
+        if len(set(ids)) != 1:
+            broken = f'{name} was written as {sorted(set(ids))}'
+        first[name] = ids[0]
+    order = sorted(first.items(), key=lambda kv: kv[1])
+    if [v for _, v in order] != list(range(len(order))) and broken is None:
+        broken = 'ids are not 0..n-1 in first-occurrence order: ' + repr(order)[:120]
+    tbl = ','.join(name for name, _ in order) or '-'
+    if broken:
+        tbl = 'BROKEN:' + broken.replace(' ', '_').replace('[', '(').replace(']', ')')
+    x = ' '.join(xcalls)
     out = (f'{head} tbl[{tbl}] G[{hexs(sinks[0].data)}] C[{hexs(sinks[1].data)}] P[{hexs(sinks[2].data)}] '
-           f'{show_tracker(it)}{"".join(recs)}')
+           f'{show_tracker(it)}{"".join(recs) if trace else ""}')
     return out, x, kind
 
 
@@ -440,15 +549,22 @@ def rt(ph, claims_s, call_strs):
     claims = claims_of(claims_s)
     calls = [parse_call(c) for c in call_strs]
     it, sinks = new_serializer(ph, claims)
+    tbl = {}
     for m, args, _ in calls:
         if m in ('into_claim_phase', 'into_proof_phase'):
             return 'SKIP switch'
         try:
-            getattr(it, m)(*args)
+            if m == '__pattern__':
+                it.pattern(*args)
+            else:
+                getattr(it, m)(*args)
+                if m == 'symbol' and it.out.data[-2:-1] == bytes([4]):
+                    tbl.setdefault(args[0], it.out.data[-1])
         except Exception as e:  # noqa: BLE001
             return 'SKIP rejected ' + kind_of(e)
     data = bytes(sinks[{'G': 0, 'C': 1, 'P': 2}[ph]].data)
-    tbl = dict(it._symbol_identifiers)
+    if hasattr(it, '_symbol_identifiers'):
+        tbl = dict(it._symbol_identifiers)
 
     def f(name):
         return tbl.get(name, len(tbl))
